@@ -22,6 +22,7 @@ def run(ctx, sess):
     P = sess.prog('default')
     ctx.rule('C15.1', 'the first block of a signal is always stored: the definition of omit_data that reaches the store/omit branch is masked with data_head.offset != 0')
     ctx.rule('C15.7', 'the reported length does not depend on omission: a block is omitted only when it is full (omit_data is masked with entry_count >= data_length); the count of a partial block is stored only in the block itself')
+    ctx.rule('C15.9', 'summary entries do not depend on omission: in the level-1 and level-n reductions the chunk position handed in (0 for an omitted block) flows only into the index entry; it is not used in any condition or in any value of a summary entry')
     ctx.rule('C15.2', 'summaries do not depend on omission: from both arms of the omit branch every success path passes the level-1 summary, the timestamp advance and the count reset; the summary path never reads the file')
     ctx.rule('C15.3', 'marker agreement: the writer records index entry 0 for an omitted block and the reader treats offset 0 as omitted (reconstruction, no seek)')
     ctx.rule('C15.4', 'reconstruction covers what may be omitted: exact arms for u8/u4/u1 and float types, every arm counts what it fills; automatic omission applies to widths <= 8')
@@ -29,6 +30,7 @@ def run(ctx, sess):
     ctx.rule('C15.5', 'the omission state is stored only by the API entry and by the per-block shift')
     f, br = first_block_stored(ctx, P, 'C15.1')
     full_block_only(ctx, P, 'C15.7')
+    position_flow_rule(ctx, P)
     # ---- C15.2
     need = {
         'summary': lambda e2: e2.k == 'call' and e2.callee == 'jls_core_fsr_summary1',
@@ -234,3 +236,50 @@ def full_block_only(ctx, P, rule):
     ctx.ob(rule, 'full_block' in kinds, f.name, 'omit_data masked by "the block is full"', '%s:%d' % (f.file, br.line),
            '; '.join(detail) if 'full_block' in kinds else
            'a partial (last) block can be omitted: its sample count is stored nowhere else, so the reported length falls back to a multiple of sample_decimate_factor (%s)' % '; '.join(detail))
+
+
+def position_flow_rule(ctx, P):
+    n = 0
+    for name in ('jls_core_fsr_summary1', 'jls_core_fsr_summaryN'):
+        fn = P.fn(name)
+        ctx.saw(fn, 1)
+        pos = [p['name'] for p in fn.params if p.get('t') == 'i64']
+        if not pos:
+            raise AnalysisBroken('%s: chunk position parameter not found' % name)
+        pos = pos[-1]
+        # locals derived from pos carry the marker too
+        carriers = {pos}
+        for _ in range(3):
+            for ev in fn.stores():
+                lhs, rhs, o = ev.store_parts()
+                l0 = strip_casts(lhs)
+                if rhs is not None and l0.get('op') == 'ref' and any(nd.get('op') == 'ref' and nd.get('name') in carriers for nd in walk(rhs)):
+                    carriers.add(l0['name'])
+        bad = []
+        uses = 0
+        for b in fn.blocks.values():
+            if b.cond is not None and any(nd.get('op') == 'ref' and nd.get('name') in carriers for nd in walk(b.cond)):
+                uses += 1
+                bad.append('condition %s at line %d' % (show(b.cond)[:40], b.line))
+            for ev in b.events:
+                if ev.e is None or not any(nd.get('op') == 'ref' and nd.get('name') in carriers for nd in walk(ev.e)):
+                    continue
+                uses += 1
+                if ev.k == 'call':
+                    if 'log' in (ev.callee or ''):
+                        continue
+                    bad.append('argument of %s() at line %d' % (ev.callee, ev.ln))
+                elif ev.k in ('store', 'decl'):
+                    lhs, rhs, o = ev.store_parts()
+                    l0 = strip_casts(lhs)
+                    p_ = fn.path(l0)
+                    if l0.get('op') == 'ref' and l0.get('name') in carriers:
+                        continue
+                    if p_ is not None and '.offsets' in tuple(p_) and o == '=' and strip_casts(rhs).get('op') == 'ref':
+                        continue
+                    bad.append('store %s at line %d' % (show(ev.e)[:50], ev.ln))
+        n += uses
+        ctx.ob('C15.9', not bad, fn.name, 'the chunk position only becomes the index entry', fn.where(),
+               '%d uses: index entry and logging only' % uses if not bad else
+               'the position (0 = omitted) influences %s: summaries of an omitted block differ from those of the same block when stored' % '; '.join(bad[:2]))
+    ctx.floor('uses of the chunk position in the reductions', n, 2)
